@@ -69,8 +69,9 @@ func (s *LStack[T]) Pop() (item T) {
 
 // Peek returns the last element of the stack without removing it.
 func (s *LStack[T]) Peek() T {
-	s.mu.RLock()
-	defer s.mu.RUnlock()
+	// The list walks by temporarily moving its head node, so readers need the write lock.
+	s.mu.Lock()
+	defer s.mu.Unlock()
 
 	if s.n == 0 {
 		var item T
@@ -82,8 +83,9 @@ func (s *LStack[T]) Peek() T {
 
 // Search searches for an element in the stack.
 func (s *LStack[T]) Search(item T) bool {
-	s.mu.RLock()
-	defer s.mu.RUnlock()
+	// The list rewrites its head node while searching, so readers need the write lock.
+	s.mu.Lock()
+	defer s.mu.Unlock()
 
 	if s.n == 0 {
 		return false
